@@ -29,6 +29,53 @@ ENGINES = ["E1 source model", "E2 grammar model", "E3 dispatch", "builder-chain 
 HANDLER_IDIOMS = ("{p}", "{p}.copy()", "dict({p})", "{{**{p}}}")
 
 
+def _start_state_path(ctx, rep):
+    """C01.s / C01.t (F-87, F-88). chain_actions_into puts actions on the transitions ENTERING its target states. Two situations have no such transition to use:
+    (s) the machine's own starting state - nothing points at it until the machine is joined to what precedes it - which is an end state exactly when the construct can
+        end where it starts (a skipped optional): every call of chain_actions_into must exclude the starting state and route it through append_action_step;
+    (t) at a join, chain actions that may send the machine elsewhere (break under an if, finish, overflowing append) must not be copied onto the transitions that consume
+        the next statement's first byte: they get a step of their own in front of it."""
+    model = ctx.model
+    rep.rule("C01.s", "actions chained at end states reach the path through the machine's own starting state: it is excluded from chain_actions_into and given a step of its own")
+    step = model.functions.get("DFA.append_action_step")
+    n = 0
+    for q in ("DFA.chain_actions_at_end", "DFA.append_after"):
+        f = model.func(q)
+        for c in ast.walk(f):
+            if isinstance(c, ast.Call) and ast.unparse(c.func) == "self.chain_actions_into" and len(c.args) == 2:
+                n += 1
+                tgt = ast.unparse(c.args[1])
+                m = re.fullmatch(r"\[(\w+) for \1 in ([\w.]+) if \1 is not self\.starting_state\]", tgt)
+                routed = m is not None and step is not None and any(
+                    isinstance(i, ast.If) and ast.unparse(i.test).endswith(f"self.starting_state in {m.group(2)}") and
+                    any(isinstance(x, ast.Call) and ast.unparse(x.func) == "self.append_action_step" and len(x.args) == 2 and ast.unparse(x.args[1]) == "[self.starting_state]" and
+                        ast.unparse(x.args[0]) == ast.unparse(c.args[0]) for x in ast.walk(i))
+                    for i in ast.walk(f))
+                rep.check(routed, "C01.s", q, f"chain_actions_into({ast.unparse(c.args[0])}, {tgt[:60]}): starting state excluded and given a step",
+                          f"`{ast.unparse(c)[:110]}` may be handed the machine's own starting state (an end state when the construct can end where it starts: a skipped optional). Nothing points at it "
+                          "yet, so nothing is attached and nothing is reported: `\"a\"; optional { \"b\"; } x = 5;` leaves x at 0 on \"a\"; a hook / break / counter behind an optional that ends "
+                          "its block is lost when it is skipped", line=c.lineno)
+    rep.check(n >= 2, "C01.s", "DFA", f"{n} chain_actions_into call sites examined", "chain_actions_into call sites not found")
+    if step is not None:
+        ok = model.has("DFA.append_action_step", "entry.transition(DFTransition([DFTransition.Else], fallthrough=True).to(performed).attach(*actions).handles_else())") and \
+            model.has("DFA.append_action_step", "step.mark_accepting(performed)") and \
+            model.has("DFA.append_action_step", "self.append_after(step, sub_states=sub_states)\nfor sub_state in sub_states:\n    for transition in sub_state.transitions:\n        if transition.target is performed:\n            transition.handles_else(False)\nreturn performed")
+        rep.check(ok, "C01.s", "DFA.append_action_step", "step = non-consuming Else carrying the actions; joined like an error path (takes only what the state does not handle validly), ordinary afterwards",
+                  "the action step changed: it must carry the actions on a fall-through Else, be culled like an error path when joined (else it conflicts with / shadows what the state continues with), "
+                  "and lose the error mark afterwards (else the state counts as finished: immediate DONE, end() ignoring it)")
+    rep.rule("C01.t", "chain actions that may send the machine elsewhere are not copied onto the consuming transitions of the following statement: they get a step in front of it")
+    aa = model.func("DFA.append_after")
+    body = strip_doc(aa.body)
+    gate = [i for i, st in enumerate(body) if isinstance(st, ast.If) and
+            re.fullmatch(r"any\(\((\w+)\.get_target_override_mode\(\) != ActionOverrideMode\.NONE for (\w+) in chain_actions for \1 in \2\.all_subactions\(\)\)\)", ast.unparse(st.test))]
+    attach = [i for i, st in enumerate(body) if "culled_transition.attach(*chain_actions" in ast.unparse(st)]
+    okg = len(gate) == 1 and attach and gate[0] < attach[0] and [ast.unparse(x) for x in body[gate[0]].body] == ["sub_states = [self.append_action_step(chain_actions, sub_states)]", "chain_actions = []"]
+    rep.check(bool(okg), "C01.t", "DFA.append_after", "override-capable chain actions are routed through append_action_step before the join transitions are built",
+              "chain actions are prepended to copies of the transitions that consume the next statement's first byte whatever they do: a conditional break / finish chained after an optional, if, "
+              "try, foreach or case is only evaluated on bytes that start the next statement, and when it fires that byte is consumed with it - "
+              "`optional { \"c\"; } loop { if stop { break; } \"ab\"; } left(); \"!\";` fails on \"!\" and accepts \"a!\"", line=aa.lineno)
+
+
 def run(ctx, rep, tier):
     model, g, E = ctx.model, ctx.grammar, ctx.emit
     consts = ctx.module_str_lists()
@@ -316,8 +363,11 @@ def run(ctx, rep, tier):
     rep.rule("C01.k", "actions chained at a join (assignments between two statements) run before the following statement's own first-byte actions")
     rep.check(model.has("DFA.append_after", "culled_transition.attach(*chain_actions, prepend=True)"), "C01.k", "DFA.append_after", "chain actions are prepended to the joined transitions",
               "actions chained at a join are appended after the next statement's first-byte actions: an assignment written before a match now sees values the match has already changed")
-    rep.check(model.has("DFA.append_after", "if chain_actions and chained_dfa.starting_state in chained_dfa.accepting_states:\n    self.chain_actions_into(chain_actions, sub_states)\n    chain_actions = []"),
-              "C01.k", "DFA.append_after", "if the next statement can match nothing, the actions go onto the transitions entering the join states instead", "empty-match chaining changed")
+    emp = [n for n in strip_doc(model.func("DFA.append_after").body) if isinstance(n, ast.If) and ast.unparse(n.test) == "chain_actions and chained_dfa.starting_state in chained_dfa.accepting_states"]
+    ok_emp = len(emp) == 1 and any("self.chain_actions_into(chain_actions," in ast.unparse(x) for x in emp[0].body) and ast.unparse(emp[0].body[-1]) == "chain_actions = []"
+    rep.check(ok_emp, "C01.k", "DFA.append_after", "if the next statement can match nothing, the actions go onto the transitions entering the join states instead (and are not attached twice)",
+              "empty-match chaining changed")
+    _start_state_path(ctx, rep)
     for q in ("OptionalNode.convert", "TryExceptNode.convert", "ForeachNode.convert", "IfElseNode.convert"):
         f = model.func(q)
         src = ast.unparse(f)
